@@ -66,6 +66,11 @@ def gen_cases(tier, seed):
         r = random.Random(env.seed_for(s, "descriptor"))
         out.append({"seed": s, "mode": "builtin_fail", "members": 1, "W": r.choice([1, 2, 4]), "n": r.randint(2, 8), "sched": "default", "retry": r.choice([None, 1, 2, 3]),
                     "max_errors": r.choice([0, None])})
+    for i in range(n // 25):
+        s = env.seed_for(seed, ID, tier, "interrupt", i)
+        r = random.Random(env.seed_for(s, "descriptor"))
+        out.append({"seed": s, "mode": "interrupt", "members": r.choice([1, 1, 2]), "W": r.choice([1, 2, 2, 4, 8]), "n": r.randint(3, 14), "sched": r.choice(["default", "random"]),
+                    "k": r.choice([1, 1, 2, 3, 5]), "perturb": "none", "delays": "none", "cfg": {"out": r.choice(["all", "sinks"])}})
     for i in range(n // 12):
         s = env.seed_for(seed, ID, tier, "faulty", i)
         r = random.Random(env.seed_for(s, "descriptor"))
@@ -176,6 +181,68 @@ def run_builtin_fail(desc):
     if bad:
         res.update(status="violation", detail=f"[failing C-implemented callables, retry={desc['retry']}] {bad}", mechanism="observer-trace",
                    witness={"trace": [f"{k}:{s}:{sc}:{x}" for _, _, k, s, sc, x in recorder.trace[:80]]})
+    return res
+
+
+def run_interrupt(desc):
+    """'Also when the run fails': the thread that called run receives a real SIGINT while the k-th call is executing (that call, and the
+    others in flight, end normally a little later). Whatever run raises, the observer is exited exactly once and AFTER every other
+    notification, and nothing is left reported running."""
+    import signal
+    import threading
+    import time
+
+    if threading.current_thread() is not threading.main_thread():
+        return {"status": "ok", "counters": {"interrupt_cases_skipped_not_main_thread": 1}, "nontrivial": False}
+    if signal.getsignal(signal.SIGINT) is not signal.default_int_handler:
+        signal.signal(signal.SIGINT, signal.default_int_handler)
+    recorder = recobserver.RecObserver("rec")
+    recs = [recorder]
+    progress = recorder.progress()
+    if desc.get("members", 1) > 1:
+        recs.append(recobserver.RecObserver("rec2"))
+        progress = (recs[0].progress(), recs[1].progress())
+    st = {"n": 0, "fired": False}
+    lock = threading.Lock()
+    main_ident = threading.main_thread().ident
+    holder = {}
+
+    def pre(nid, att):
+        with lock:
+            st["n"] += 1
+            hit = st["n"] == desc["k"] and not st["fired"]
+            if hit:
+                st["fired"] = True
+        if hit:
+            holder["H"].interrupt_sent = True
+            signal.pthread_kill(main_ident, signal.SIGINT)
+            time.sleep(0.04)  # still executing when the calling thread handles the interrupt
+        elif st["fired"]:
+            time.sleep(0.01)
+
+    late = None
+    try:
+        R = plainrun.execute(desc, pre=pre, progress=progress, record_args=False, before_run=lambda R_: holder.__setitem__("H", R_.H))
+        for _ in range(20):
+            time.sleep(0.0005)  # an interrupt that was not handled inside run surfaces here
+    except KeyboardInterrupt as e:
+        late = e
+        R = None
+    time.sleep(0.08)  # anything still executing on a worker thread reports now
+    bad = None
+    for r_ in recs:
+        trace = list(r_.trace)
+        bad = recobserver.check_trace(trace, balanced=True, succeeded=False)
+        if bad:
+            break
+    if bad is None and len(recs) == 2 and recs[0].signature() != recs[1].signature():
+        bad = "the two members of the composite observer received different notification sequences"
+    handled_inside = R is not None and isinstance(R.exc, KeyboardInterrupt)
+    res = {"status": "ok", "counters": {"interrupt_runs": 1, "interrupts_handled_inside_run": int(handled_inside), "traces_checked": len(recs)},
+           "nontrivial": handled_inside, "sig": f"interrupt|{desc['seed'] % 100000}"}
+    if bad:
+        res.update(status="violation", mechanism="observer-trace", witness={"trace": [f"{k}:{s}:{sc}:{x}" for _, _, k, s, sc, x in recs[0].trace[-60:]]},
+                   detail=f"[SIGINT to the caller during call #{desc['k']}, W={desc['W']}, run raised {type(R.exc).__name__ if R is not None else 'nothing (interrupt surfaced later)'}] {bad}")
     return res
 
 
@@ -295,6 +362,8 @@ def run_case(desc):
         return run_many_callables(desc)
     if desc["mode"] == "builtin_fail":
         return run_builtin_fail(desc)
+    if desc["mode"] == "interrupt":
+        return run_interrupt(desc)
     recs, progress = make_progress(desc)
     extra_calls = []
     if desc["mode"] == "plain":
